@@ -60,7 +60,8 @@ def fresh(I, ctx, ty, name, tenv=None, crate=None):
     for g in td.generics:
         env2.setdefault(g, "Empty")
     if td.kind == "enum":
-        return SymEnum(ctx.fresh_id(), td.name, td, env2, name, None, td.crate)
+        disc = ctx.fresh_int(f"{name}.variant", 0, len(td.variants))
+        return SymEnum(ctx.fresh_id(), td.name, td, env2, name, None, td.crate, disc)
     if td.tuple_struct:
         vals = [fresh(I, ctx, f.ty, f"{name}.{f.name}", env2, td.crate) for f in td.fields]
         if len(vals) == 1 and td.name in ("Uint128", "Uint64", "Decimal", "Addr", "Binary", "Timestamp"): return vals[0]
@@ -88,7 +89,7 @@ def force_enum(I, ctx, v):
     names = [x.name for x in td.variants]
     allowed = v.variants if v.variants is not None else names
     idxs = [i for i, n in enumerate(names) if n in allowed]
-    k = idxs[ctx.choose([True] * len(idxs), f"{v.name}:{td.name}")]
+    k = idxs[ctx.choose([(v.disc == i) if v.disc is not None else True for i in idxs], f"{v.name}:{td.name}")]
     var = td.variants[k]
     vals = [fresh(I, ctx, f.ty, f"{v.name}.{var.name}.{f.name}", v.targs, td.crate) for f in var.fields]
     return EnumV(td.name, var.name, vals, [f.name for f in var.fields] if var.kind == "struct" else None)
